@@ -132,13 +132,14 @@ PROPS = {
                             "indel handling; every chunk, graph, previous vertex and position inside the chunk): every fragment it returns is tagged with the "
                             "given position and is exactly one substitution (by a nucleotide different from the original), one insertion or one deletion "
                             "of the chunk at that position, and the part of the chunk after the edit is a walk from the previous vertex through the tried "
-                            "arc (element invariant of the result list, three walk-loop invariants); it raises nothing.  BOUNDED ONLY: completeness of "
-                            "path_matching (no walkable edit is missing) and the end-to-end recovery claim "
+                            "arc (element invariant of the result list, three walk-loop invariants); every live arc of the previous vertex is tried and the accept / reject "
+                            "decision of each try is exact (accepted <=> the rest of the chunk walks); it raises nothing.  BOUNDED ONLY: the end-to-end recovery claim "
                             "(the original walk is among the candidates when detected errors = edits, also with its check supplied; substitutions with indel "
                             "handling off): a whole-protocol argument across the scan loop, the look-back window and path_matching that this prover does not "
                             "carry (DESIGN 8/C08).",
                 demoted=["recovery of the original walk (membership in the candidate list) - bounded B2",
-                         "completeness of path_matching (every walkable single edit is returned) - bounded B2 (through repair_dna)",
+                         "that the accepted tries and only they end up in the returned list (list bookkeeping across iterations) - by construction of the element "
+                         "invariant only; bounded B2 (through repair_dna)",
                          "the reported statistic is 0 on the fall-back exit even when the scan loop detected errors - bounded B2 observes the returned value"],
                 claim="Mixed: the detection clause (scan loop) and the soundness of every repair fragment (path_matching) are deductive; recovery is bounded (every single "
                       "edit per walk, seeded separated edit sets).",
